@@ -207,7 +207,21 @@ fn after_advance(sim: &mut Sim, before: &Before, numbers: &mut BTreeMap<String, 
     // (2) nothing due => nothing changes
     if !any_due && changed.is_empty() && boundary.is_empty() {
         stats.nothing_due += 1;
-        if let Some(d) = crate::rrdpc::diff_maps("before", &before.snap.served, "after", &after.served) {
+        // "nothing due" was decided from the sets a relying party reaches;
+        // the comparison is over the same part of the repository (a CA whose
+        // certificate was suspended by its parent keeps re-issuing its own)
+        let dirs: std::collections::BTreeSet<String> = before
+            .snap
+            .rp
+            .pps
+            .iter()
+            .chain(after.rp.pps.iter())
+            .filter_map(|pp| pp.mft_uri.rfind('/').map(|i| pp.mft_uri[..=i].to_string()))
+            .collect();
+        let reach = |m: &crate::rp::Served| -> crate::rp::Served {
+            m.iter().filter(|(u, _)| u.rfind('/').map(|i| dirs.contains(&u[..=i])).unwrap_or(false)).map(|(k, v)| (k.clone(), v.clone())).collect()
+        };
+        if let Some(d) = crate::rrdpc::diff_maps("before", &reach(&before.snap.served), "after", &reach(&after.served)) {
             return Err(bad("c14-changed-without-need", "repository", format!("a maintenance run that found nothing due changed the repository: {d}")));
         }
     }
@@ -247,7 +261,9 @@ impl Prop for C14 {
             roa: 10,
             aspa: 5,
             bgpsec: 5,
-            keyroll: 8,
+            keyroll: 12,
+            hold_signer: 2,
+            hold_parent_syncs: 5,
             child_res: 3,
             suspend: 1,
             attach: 1,
@@ -278,10 +294,11 @@ impl Prop for C14 {
             case,
             |sim, op| {
                 *before.borrow_mut() = None;
-                if let Op::Advance { .. } = op {
+                if let Op::Advance { secs } = op {
                     if sim.advance_budget < 86400 {
                         return Ok(());
                     }
+                    sim.release_parent_syncs_before_advance(*secs as i64).map_err(fail_to_bad)?;
                     // settle at T0
                     sim.converge().map_err(fail_to_bad)?;
                     let snap = oracle::snapshot(sim)?;
